@@ -365,7 +365,12 @@ func (g *G) expr(d int) *Node {
 		}
 		return n
 	case 10:
-		n := &Node{K: "new", Kids: []*Node{g.expr(d - 1)}}
+		n := &Node{K: "new", Kids: []*Node{nil}}
+		if g.chance(40) {
+			n.Kids[0] = g.memberChain(d - 1)
+		} else {
+			n.Kids[0] = g.expr(d - 1)
+		}
 		if g.chance(40) {
 			n.NoArgs = true
 		} else {
@@ -389,6 +394,62 @@ func (g *G) expr(d int) *Node {
 	default:
 		return g.funcNode("func", d-1, g.chance(40))
 	}
+}
+
+// memberChain builds a MemberExpression-shaped callee for "new": a base followed by property
+// accessors whose bracketed parts (index expressions, array / object literal elements, function
+// bodies, arguments of an inner new) hold full expressions - calls above all, since inside
+// brackets every restriction of the enclosing position is lifted again.
+func (g *G) memberChain(d int) *Node {
+	if d < 1 {
+		d = 1
+	}
+	inner := func() *Node { // a full expression that is or contains a call
+		c := &Node{K: "call", Kids: []*Node{g.expr(d - 1)}}
+		for i, k := 0, g.pick([]int{3, 3, 1}); i < k; i++ {
+			c.Kids = append(c.Kids, g.expr(d-1))
+		}
+		switch g.pick([]int{5, 2, 1, 1, 1, 1}) {
+		case 1:
+			return Bin(g.from(BinaryOps), c, g.expr(d-1))
+		case 2:
+			return Cond(g.expr(d-1), c, g.expr(d-1))
+		case 3:
+			return &Node{K: "seq", Kids: []*Node{g.expr(d - 1), c}}
+		case 4:
+			return &Node{K: "call", Kids: []*Node{c}}
+		case 5:
+			return Unary("!", c)
+		}
+		return c
+	}
+	var base *Node
+	switch g.pick([]int{5, 1, 2, 2, 1, 2}) {
+	case 0:
+		base = g.identNode("id")
+	case 1:
+		base = &Node{K: "this"}
+	case 2:
+		base = &Node{K: "arr", Kids: []*Node{inner()}}
+	case 3:
+		base = &Node{K: "obj", Kids: []*Node{{K: "prop", Op: "init", Kids: []*Node{g.key(), inner()}}}}
+	case 4:
+		base = &Node{K: "func", Kids: []*Node{ExprStmt(inner())}}
+	default:
+		base = &Node{K: "new", Kids: []*Node{g.identNode("id"), inner()}}
+	}
+	for i, k := 0, g.int(1, 3); i < k; i++ {
+		if g.chance(35) {
+			n := &Node{K: "dot", Kids: []*Node{base}}
+			g.propName(n)
+			base = n
+		} else if g.chance(75) {
+			base = &Node{K: "idx", Kids: []*Node{base, inner()}}
+		} else {
+			base = &Node{K: "idx", Kids: []*Node{base, g.expr(d - 1)}}
+		}
+	}
+	return base
 }
 
 func (g *G) key() *Node {
